@@ -156,7 +156,11 @@ pub fn run(
             } else {
                 roll -= 12;
                 if roll < 8 {
-                    let n = rng.range(2, 20) as usize;
+                    // mostly 2-20 operations; now and then a batch with one operation or with none at all
+                    let n = if rng.chance(0.08) { rng.below(2) as usize } else { rng.range(2, 20) as usize };
+                    if n == 0 {
+                        out.add("empty_batches", 1);
+                    }
                     let mut ops = vec![];
                     for _ in 0..n {
                         let k = rng.pick(&pool).clone();
